@@ -26,7 +26,7 @@ class Shadow:
         return False
 
 
-def gen_table_case(r, kind):
+def gen_table_case(r, kind, copy_faults=False):
     """kind: 'small' | 'medium' | 'big'"""
     sh = Shadow(); ops = []
     uniq = [u for u in UNIQ_MENU if r.chance(1, 2)]
@@ -137,10 +137,11 @@ def gen_table_case(r, kind):
             for q in ns:
                 if q not in seen: seen.append(q)
             sh.rows = [sh.rows[q] for q in seen]
-        elif t < 90:
-            if r.chance(1, 2): ops.append('CP %d' % f())
+        elif t < (96 if copy_faults else 90):
+            cf = 1 if copy_faults else 0
+            if r.chance(1, 2): ops.append('CP %d' % cf)
             else:
-                p = r.choice(PREDS); ops.append('CF %d %s' % (f(), p))
+                p = r.choice(PREDS); ops.append('CF %d %s' % (cf, p))
                 sh.rows = [x for x in sh.rows if evalp(p.split(), x)[0]]
         elif t == 90 and kind != 'big':
             ops.append('CL'); sh.rows = []
